@@ -12,6 +12,7 @@ from vp_common import *
 import vp_coq, vp_build
 import bounds_cases as bc
 import txt_cases
+import kick_cases as kc
 
 REPO_DIR = os.path.realpath(REPO)
 
@@ -163,6 +164,15 @@ def api_correspondence(ctx, tg, tga):
             else:
                 offs.append(f32(rng.choice([1e6, 3e9, 4.2e9, 1e12, 2.0 ** 31, 2.0 ** 32 - 300, -1e6, -5e9, -1e30])))
         kicks.append(("k%d" % i, rng.choice("xy"), n, nb, it, offs))
+    # aimed at the case splits of the generated updateSM body (Proofs/UpdateSMGenP.v): integer part of n/2+offset exactly at
+    # the guard / stencil / table boundaries, negative beyond -n/2; odd and even sizes; own PRNG (the older streams keep their draws)
+    import random
+    erng = random.Random(ctx.seed * 1000003 + 171)
+    for i in range(5 if quick else 70):
+        n = kc.EDGE_SIZES[i % len(kc.EDGE_SIZES)]
+        it = 1 + i % 4
+        nb = erng.choice([1, 1, 2])
+        kicks.append(("ke%d" % i, erng.choice("xy"), n, nb, it, kc.edge_offsets(erng, n, it, n * nb)))
     for (cid, d, n, nb, it, offs) in kicks:
         mtext.append("kick %s %d %d %d %s\n" % (cid, n, nb, it, " ".join(qtok(Fraction(o)) for o in offs)))
     # --- impedance sum, tracks
@@ -249,6 +259,7 @@ def api_correspondence(ctx, tg, tga):
             ctx.violation("impl-oracle", "KickMap table index outside the grid row", case=dict(kind="kick", n=n, it=it, offs=[fhex(o) for o in offs]),
                           observed=it_, sig=dict(stage="api", cause="kick-table-index"))
         ctx.count("kick:defined")
+        ctx.extra["kick_tables_compared"] = ctx.extra.get("kick_tables_compared", 0) + 1
         ctx.case_done(("kick", cid), any(abs(o) > n / 2 for o in offs))
     for j, (l, r) in enumerate(imps):
         s = [parse_c(t) for t in impl["i%d" % j].get("sum", [[]])[0]]
@@ -645,7 +656,7 @@ def report_valgrind(ctx, name, text, args, rc, err):
 
 def run(ctx):
     ctx.rule = ("API: upper_power_of_two on 0..2^64, float->unsigned on its defined domain, padding (n 4..40, 1..9 buckets, spacing/nmax around the exact bound), "
-                "Fokker-Planck constructor (n 4..40, both stencils, zero bin from below 0 to above n), kick tables (offsets to +-1e12), impedance sums, track lookups: "
+                "Fokker-Planck constructor (n 4..40, both stencils, zero bin from below 0 to above n), kick tables (offsets to +-1e12, and offsets placing the integer part of n/2+offset at the guard / stencil / table boundaries of the generated updateSM body), impedance sums, track lookups: "
                 "model vs repo objects bit for bit; then the same objects at their extremes under ASan+UBSan, one process per case. Program: random configurations of the "
                 "documented domain (grid sizes, filling patterns, spacings down to touching buckets, padding with/without power-of-two rounding, interpolation/derivation orders, "
                 "FP/tracking variants, RF models and modulation, grid shifts up to 2n, 1..1000 steps per period) and malformed impedance/tracking/start files under ASan+UBSan; "
@@ -664,6 +675,7 @@ def run(ctx):
     ctx.assumptions += ["PARTIAL: memory safety of C++ is not a theorem about a Gallina model; the theorems cover the size/index arithmetic of the modelled buffers only",
                         "the generated size model rounds every double operation to binary64 (rnd53, proved equal to Flocq's round-to-nearest-even): it is the program's arithmetic, ties included",
                         "everything that is not index arithmetic (library internals, lifetime, uninitialised locals of the text readers) is only searched"]
+    coq = kc.downgrade_usm(ctx, coq, dis, validated=ctx.extra.get("kick_tables_compared", 0) > 0)
     conclude_c17(ctx, coq, dis)
 
 
